@@ -436,6 +436,76 @@ mod rel {
         }
         Ok(n)
     }
+    /// C11: histories of edits on a relationship field against a list-of-lists model
+    pub fn run_c11() -> Result<usize, Fail> {
+        use debian_control::lossless::relations::{Relations as LRelations, Entry as LEntry, Relation as LRelation};
+        let mut r = Rng(crate::seed_mix(0x1F83D9ABFB41BD6B));
+        let mut n = 0;
+        let view = |f: &LRelations| -> Vec<Vec<String>> {
+            f.entries().map(|e| e.relations().map(|x| {
+                let lossy = Relation { name: x.name(), archqual: x.archqual(), version: x.version(), architectures: x.architectures().map(|a| a.collect()), profiles: x.profiles().collect() };
+                lossy.to_string() }).collect()).collect()
+        };
+        let only = std::env::var("VWIT_C11_OPS").ok();
+        for _ in 0..2000 * crate::scale() {
+            // start: a well-formed field of 0..3 entries, canonical layout
+            let ne = r.below(4);
+            let rels = Relations((0..ne).map(|_| { let na = 1 + r.below(2); (0..na).map(|_| { let mut g = gen(&mut r); if g.architectures.as_ref().map(|a| a.is_empty()).unwrap_or(false) { g.architectures = None; } g }).collect() }).collect());
+            let start = rels.to_string();
+            let mut field = match LRelations::from_str(&start) { Ok(f) => f, Err(_) => continue };
+            let mut model: Vec<Vec<String>> = rels.0.iter().map(|e| e.iter().map(|a| a.to_string()).collect()).collect();
+            let mut hist: Vec<String> = Vec::new();
+            for _ in 0..1 + r.below(3) {
+                n += 1;
+                let mut newrel = gen(&mut r); if newrel.architectures.as_ref().map(|a| a.is_empty()).unwrap_or(false) { newrel.architectures = None; }
+                let newtext = newrel.to_string();
+                let how = r.below(3);   // how the operand is built: parsed, from a list, by conversion from the lossy value
+                let mk_entry = |t: &str, how: usize| -> LEntry { match how { 0 => LEntry::from_str(t).unwrap(), 1 => LEntry::from(vec![LRelation::from_str(t).unwrap()]), _ => LEntry::from(vec![newrel.clone()]) } };
+                let op = r.below(13);
+                let ops = ["push", "insert", "replace", "remove_entry", "entry_push", "entry_remove_relation", "set_version", "drop_constraint", "entry_replace", "set_archqual", "set_architectures", "add_profile", "relation_remove"];
+                if let Some(o) = &only { if !o.split(',').any(|x| x == ops[op]) { continue; } }
+                let desc: String;
+                let res = std::panic::catch_unwind(std::panic::AssertUnwindSafe(|| -> Option<String> {
+                    match op {
+                        0 => { field.push(mk_entry(&newtext, how)); model.push(vec![newtext.clone()]); Some(format!("push({:?}) [operand built way {}]", newtext, how)) }
+                        1 => { let i = r.below(model.len() + 2); field.insert(i, mk_entry(&newtext, how)); let j = i.min(model.len()); model.insert(j, vec![newtext.clone()]); Some(format!("insert({}, {:?}) [way {}]", i, newtext, how)) }
+                        2 => { if model.is_empty() { return None; } let i = r.below(model.len()); field.replace(i, mk_entry(&newtext, how)); model[i] = vec![newtext.clone()]; Some(format!("replace({}, {:?}) [way {}]", i, newtext, how)) }
+                        3 => { if model.is_empty() { return None; } let i = r.below(model.len()); field.remove_entry(i); model.remove(i); Some(format!("remove_entry({})", i)) }
+                        4 => { if model.is_empty() { return None; } let i = r.below(model.len()); let mut e = field.get_entry(i).unwrap(); e.push(LRelation::from_str(&newtext).unwrap()); model[i].push(newtext.clone()); Some(format!("get_entry({}).push({:?})", i, newtext)) }
+                        5 => { if model.is_empty() { return None; } let i = r.below(model.len()); if model[i].len() < 2 { return None; } let j = r.below(model[i].len()); let e = field.get_entry(i).unwrap(); e.remove_relation(j); model[i].remove(j); Some(format!("get_entry({}).remove_relation({})", i, j)) }
+                        6 => { if model.is_empty() { return None; } let i = r.below(model.len()); let j = r.below(model[i].len()); let e = field.get_entry(i).unwrap(); let mut x = e.get_relation(j).unwrap();
+                               let mut l = Relation { name: x.name(), archqual: x.archqual(), version: x.version(), architectures: x.architectures().map(|a| a.collect()), profiles: x.profiles().collect() };
+                               l.version = newrel.version.clone(); x.set_version(newrel.version.clone()); model[i][j] = l.to_string(); Some(format!("relation({},{}).set_version({:?})", i, j, newrel.version.as_ref().map(|v| (v.0.to_string(), v.1.to_string())))) }
+                        7 => { if model.is_empty() { return None; } let i = r.below(model.len()); let j = r.below(model[i].len()); let e = field.get_entry(i).unwrap(); let mut x = e.get_relation(j).unwrap();
+                               let mut l = Relation { name: x.name(), archqual: x.archqual(), version: x.version(), architectures: x.architectures().map(|a| a.collect()), profiles: x.profiles().collect() };
+                               l.version = None; x.drop_constraint(); model[i][j] = l.to_string(); Some(format!("relation({},{}).drop_constraint()", i, j)) }
+                        8 => { if model.is_empty() { return None; } let i = r.below(model.len()); let j = r.below(model[i].len()); let mut e = field.get_entry(i).unwrap(); e.replace(j, LRelation::from_str(&newtext).unwrap()); model[i][j] = newtext.clone(); Some(format!("get_entry({}).replace({}, {:?})", i, j, newtext)) }
+                        12 => { if model.is_empty() { return None; } let i = r.below(model.len()); if model[i].len() < 2 { return None; } let j = r.below(model[i].len()); let e = field.get_entry(i).unwrap(); let mut x = e.get_relation(j).unwrap(); x.remove(); model[i].remove(j); Some(format!("relation({},{}).remove()", i, j)) }
+                        _ => { if model.is_empty() { return None; } let i = r.below(model.len()); let j = r.below(model[i].len()); let e = field.get_entry(i).unwrap(); let mut x = e.get_relation(j).unwrap();
+                               let mut l = Relation { name: x.name(), archqual: x.archqual(), version: x.version(), architectures: x.architectures().map(|a| a.collect()), profiles: x.profiles().collect() };
+                               let d = match op {
+                                   9 => { let q = newrel.archqual.clone().unwrap_or("any".to_string()); l.archqual = Some(q.clone()); x.set_archqual(&q); format!("set_archqual({:?})", q) }
+                                   10 => { let a = newrel.architectures.clone().unwrap_or(vec!["amd64".to_string()]); l.architectures = Some(a.clone()); x.set_architectures(a.iter().map(|s| s.as_str())); format!("set_architectures({:?})", a) }
+                                   _ => { let g = vec![BuildProfile::Disabled("nodoc".to_string()), BuildProfile::Enabled("cross".to_string())]; l.profiles.push(g.clone()); x.add_profile(&g); "add_profile([!nodoc cross])".to_string() }
+                               };
+                               model[i][j] = l.to_string(); Some(format!("relation({},{}).{}", i, j, d)) }
+                    }
+                }));
+                match res {
+                    Err(_) => { hist.push(format!("{} <panics>", ops[op])); return Err(Fail { prop: "C11".into(), input: format!("{:?} then {:?}", start, hist), what: format!("{} panics", ops[op]), expected: "no panic".into(), got: "panic".into() }); }
+                    Ok(None) => continue,
+                    Ok(Some(d)) => { desc = d; }
+                }
+                hist.push(desc);
+                let shown = format!("{:?} then {:?}", start, hist);
+                let text = field.to_string();
+                let back = match LRelations::from_str(&text) { Ok(b) => b, Err(e) => return Err(Fail { prop: "C11".into(), input: shown, what: format!("after {} the field does not parse strictly", ops[op]), expected: "Ok".into(), got: format!("{:?} for {:?}", e, text) }) };
+                if view(&back) != model { return Err(Fail { prop: "C11".into(), input: shown, what: format!("after {} the printed field does not parse to the list model", ops[op]), expected: format!("{:?}", model), got: format!("{:?} from {:?}", view(&back), text) }); }
+                if view(&field) != model { return Err(Fail { prop: "C11".into(), input: shown, what: format!("after {} the live field does not show the list model", ops[op]), expected: format!("{:?}", model), got: format!("{:?}", view(&field)) }); }
+            }
+        }
+        Ok(n)
+    }
     pub fn run() -> Result<usize, Fail> {
         let mut r = Rng(crate::seed_mix(0xD1B54A32D192ED03));
         let mut n = 0;
@@ -1113,6 +1183,10 @@ fn main() {
     }
     if prop == "C17" {
         match cpr::run() { Ok(n) => { eprintln!("vwit C17: no failing input among {} lookups", n); return; } Err(f) => f.print_and_exit() }
+    }
+    if prop == "C11" {
+        std::panic::set_hook(Box::new(|_| {}));
+        match rel::run_c11() { Ok(n) => { eprintln!("vwit C11: no failing input among {} edit steps", n); return; } Err(f) => f.print_and_exit() }
     }
     if prop == "C13" {
         std::panic::set_hook(Box::new(|_| {}));
